@@ -5,7 +5,8 @@
    [ideal]    = the property statement read literally (the specification [prop_code] decides). *)
 From Coq Require Import List ZArith Bool.
 From Verif Require Import C20.Model C20.Spec C20.Codec
-  C20.Proofs_Overlay C20.Proofs_History C20.Proofs_Select C20.Proofs_Main C20.Proofs_Witness.
+  C20.Proofs_Overlay C20.Proofs_History C20.Proofs_Strict C20.Proofs_Select C20.Proofs_Main C20.Proofs_Nodes
+  C20.Proofs_Witness.
 Import ListNotations.
 Open Scope Z_scope.
 
@@ -58,10 +59,13 @@ Proof. exact (fun ls => conj (selects_nil ls) (conj (selects_empty ls)
          (conj (selects_invalid ls) (selects_valid ls)))). Qed.
 Print Assumptions c20_selector_cases.
 
-(* --- no leak, over all histories: deleting from every ConfigMap every entry that does not select
-       the node changes nothing of what the node observes after every event --- *)
-Theorem c20_no_leak : forall m sds ls ops,
-  run m (mkInput sds [ls] (map (restrict_op ls) ops)) = run m (mkInput sds [ls] ops).
+(* --- no leak, over all histories (ConfigMap events, node label changes, restarts, ...): deleting
+       from every ConfigMap every entry that selects none of the label sets the nodes ever carry
+       changes nothing of what the nodes are delivered after every event --- *)
+Theorem c20_no_leak : forall m sds nodes strict ops,
+  in_scope (mkInput sds nodes strict ops) = true ->
+  let P := selecting_any (map n_labels (node_values nodes ops)) in
+  run m (mkInput sds nodes strict (map (restrict_op P) ops)) = run m (mkInput sds nodes strict ops).
 Proof. exact no_leak_run. Qed.
 Print Assumptions c20_no_leak.
 
@@ -71,12 +75,86 @@ Theorem c20_delivery_identity : forall stored c, deliver_node stored c = c.
 Proof. exact deliver_node_id. Qed.
 Print Assumptions c20_delivery_identity.
 
+(* --- NodeSLO life cycle: after the reconciliation that follows every event a Node that does not
+       exist has no NodeSLO and a Node that exists has exactly the rendered spec, whatever was stored
+       before (nothing, an old spec, one overwritten or deleted by a third party) --- *)
+Theorem c20_reconcile_lifecycle : forall sds mgs nodes stored,
+  reconcile_all sds mgs nodes stored = map (option_map (fun n => render n sds mgs)) nodes.
+Proof. exact reconcile_lifecycle. Qed.
+Print Assumptions c20_reconcile_lifecycle.
+
+(* --- section text framing: exactly one JSON value with white space only around it; a text with any
+       other character before or after the document keeps, over every history, the previously
+       effective settings of the section in force --- *)
+Theorem c20_framing : forall lead trail c es,
+  parse_frame lead trail (SValue c es)
+  = if forallb is_ws lead && forallb is_ws trail then SValue c es else SMalformed.
+Proof. exact parse_frame_value. Qed.
+Print Assumptions c20_framing.
+
+Theorem c20_trailing_data_keeps_old : forall m sds ls ops c i sd lead trail cl es ch,
+  nth_error sds i = Some sd ->
+  nth i c SAbsent = parse_frame lead trail (SValue cl es) ->
+  In ch (lead ++ trail) -> is_ws ch = false ->
+  effective ls (nth i (st_secs (run_state m sds (ops ++ [OSync c]))) (default_of sd))
+  = effective ls (nth i (st_secs (run_state m sds ops)) (default_of sd)).
+Proof. exact framed_garbage_keeps_old. Qed.
+Print Assumptions c20_trailing_data_keeps_old.
+
+(* --- the node's own bandwidth annotation: a node-local layer over ONE field of ONE section; an
+       unreadable annotation withholds that section only --- *)
+Theorem c20_bandwidth_layer : forall m nd sd s,
+  (sd_bw sd = None \/ n_bw nd = BwNone ->
+     spec_effective_n m nd sd s = spec_effective m (n_labels nd) sd s)
+  /\ (forall k q, sd_bw sd = Some k -> n_bw nd = BwVal q ->
+        (forall i p, Z.to_nat i <> k ->
+           lookup (i :: p) (spec_effective_n m nd sd s) = lookup (i :: p) (spec_effective m (n_labels nd) sd s)
+           /\ lookup_arr (i :: p) (spec_effective_n m nd sd s)
+              = lookup_arr (i :: p) (spec_effective m (n_labels nd) sd s))
+        /\ (forall fs, spec_effective m (n_labels nd) sd s = Obj (Some fs) -> (k < length fs)%nat ->
+              lookup [Z.of_nat k] (spec_effective_n m nd sd s) = Some q))
+  /\ (forall k, sd_bw sd = Some k -> n_bw nd = BwBad -> spec_effective_n m nd sd s = Obj None).
+Proof. exact bandwidth_layer. Qed.
+Print Assumptions c20_bandwidth_layer.
+
+Theorem c20_annotation_local : forall m sds syncs ls b b' j,
+  match nth_error sds j with Some sd => sd_bw sd = None | None => True end ->
+  option_map (fun cs => nth_error cs j) (spec_node m sds syncs (Some (mkNode ls b)))
+  = option_map (fun cs => nth_error cs j) (spec_node m sds syncs (Some (mkNode ls b'))).
+Proof. exact annotation_local. Qed.
+Print Assumptions c20_annotation_local.
+
+(* --- duplicate events: the same ConfigMap delivered again (duplicate Create, resync) changes nothing --- *)
+Theorem c20_resync_idempotent : forall m sds st c,
+  step m sds (step m sds st (OSync c)) (OSync c) = step m sds st (OSync c).
+Proof. exact resync_idempotent. Qed.
+Print Assumptions c20_resync_idempotent.
+
+(* --- restart: a restarted controller has forgotten every earlier ConfigMap --- *)
+Theorem c20_restart_is_fresh : forall m sds ops,
+  st_secs (run_state m sds (ops ++ [ORestart]))
+  = sync_from m sds (map default_of sds) (st_inf (run_state m sds ops)).
+Proof. exact restart_is_fresh. Qed.
+Print Assumptions c20_restart_is_fresh.
+
 (* --- history: the spec DELIVERED to every node (NodeSLO.Spec) after ANY sequence of events, each
        followed by the reconciliation of the nodes, is what the from-scratch specification computes
        from the latest applied, parseable text of each section --- *)
-Theorem c20_history_refines_spec : forall m i, run m i = spec_run m i.
+Theorem c20_history_refines_spec : forall m i, in_scope i = true -> run m i = spec_run m i.
 Proof. exact run_refines_spec. Qed.
 Print Assumptions c20_history_refines_spec.
+
+(* --- the production triggers are complete: for every history that starts with the controller start,
+       in which every (re)start finds at least one Node and no Node update changes the bandwidth
+       annotation alone, reconciling ONLY what the event handlers enqueue (ConfigMap handler: all
+       nodes iff the cache changed; Node handler: Create / Delete / label change; NodeSLO watch;
+       restart: every existing object) delivers after EVERY event exactly what reconciling every node
+       after every event delivers --- *)
+Theorem c20_triggers_complete : forall m sds nodes ops,
+  wf_strict (mkInput sds nodes true ops) = true ->
+  run m (mkInput sds nodes true ops) = run m (mkInput sds nodes false ops).
+Proof. exact triggers_complete. Qed.
+Print Assumptions c20_triggers_complete.
 
 Theorem c20_absent_defaults : forall m sds ls ops c i sd,
   nth_error sds i = Some sd -> nth i c SAbsent = SAbsent ->
@@ -120,7 +198,8 @@ Print Assumptions c20_model_explained.
 
 (* --- a known-finding signature is returned only if the implementation's WHOLE observable equals
        the faithful model's observable: no regression can hide behind a recorded shape --- *)
-Theorem c20_sig_requires_model : forall inp obs, finding_sig inp obs <> 0 -> obs = run_case inp.
+Theorem c20_sig_requires_model : forall inp obs,
+  finding_sig inp obs <> 0 -> obs = run_case inp /\ prop_case inp obs <> 0.
 Proof. exact sig_requires_model. Qed.
 Print Assumptions c20_sig_requires_model.
 
@@ -129,8 +208,8 @@ Theorem c20_bandwidth_reset_refuted :
   wf_input koord_schemas (decode witness_bandwidth) = true
   /\ prop_case witness_bandwidth (run_case witness_bandwidth) = 1
   /\ finding_sig witness_bandwidth (run_case witness_bandwidth) = 1
-  /\ map (lookup [7]) (map (fun o => nth 3 o (Obj None)) (run faithful (decode witness_bandwidth))) = [Some 0]
-  /\ map (lookup [7]) (map (fun o => nth 3 o (Obj None)) (spec_run ideal (decode witness_bandwidth))) = [Some 1000].
+  /\ map (lookup [7]) (map (sec_of 0 3) (run faithful (decode witness_bandwidth))) = [Some 0]
+  /\ map (lookup [7]) (map (sec_of 0 3) (spec_run ideal (decode witness_bandwidth))) = [Some 1000].
 Proof. exact bandwidth_reset_refuted. Qed.
 Print Assumptions c20_bandwidth_reset_refuted.
 
@@ -139,11 +218,11 @@ Theorem c20_blocks_merge_refuted :
   /\ prop_case witness_blocks (run_case witness_blocks) = 1
   /\ finding_sig witness_blocks (run_case witness_blocks) = 2
   /\ map (fun o => option_map (map (fun b => (lookup [0] b, lookup [1] b, lookup [2;0] b, lookup [2;1] b)))
-                              (blocks_of (nth 1 o (Obj None))))
+                              (blocks_of (sec_of 0 1 o)))
          (run faithful (decode witness_blocks))
      = [Some [(Some 2, Some (-13), Some 100, Some 5)]]
   /\ map (fun o => option_map (map (fun b => (lookup [0] b, lookup [1] b, lookup [2;0] b, lookup [2;1] b)))
-                              (blocks_of (nth 1 o (Obj None))))
+                              (blocks_of (sec_of 0 1 o)))
          (spec_run ideal (decode witness_blocks))
      = [Some [(Some 2, None, None, Some 5)]].
 Proof. exact blocks_merge_refuted. Qed.
@@ -156,6 +235,19 @@ Example c20_nonvacuous :
   /\ nontrivial_case example_clean = true
   /\ prop_case example_clean (run_case example_clean) = 0.
 Proof. exact example_clean_ok. Qed.
+
+Example c20_nonvacuous_events :
+  wf_input koord_schemas (decode example_events) = true
+  /\ clean_input (decode example_events) = true
+  /\ in_strict (decode example_events) = true /\ wf_strict (decode example_events) = true
+  /\ nontrivial_case example_events = true
+  /\ prop_case example_events (run_case example_events) = 0
+  /\ map (fun o => (lookup [1] (sec_of 0 2 o), lookup [1] (sec_of 1 2 o))) (run faithful (decode example_events))
+     = [(Some 1000, Some 1000); (Some 900, Some 700); (Some 900, Some 700); (Some 900, Some 900);
+        (Some 900, Some 900); (Some 1000, Some 1000)]
+  /\ map (fun o => (lookup [7] (sec_of 0 3 o), sec_of 1 3 o)) (run faithful (decode example_events))
+     = repeat (Some 5000, Obj None) 6.
+Proof. exact example_events_ok. Qed.
 
 Example c20_nonvacuous_paths :
   let d := Obj (Some [Leaf false (Some 1); Leaf true (Some 0)]) in
